@@ -23,8 +23,6 @@ VARIABLES ops,        \* remaining path ops (only M, L, Z)
           done
 vars == <<ops, cur, startp, lastDir, emitted, done>>
 
-RECURSIVE GCD(_, _)
-GCD(a, b) == IF b = 0 THEN a ELSE GCD(b, a % b)
 DirOf(a, b) == LET dx == b[1] - a[1]  dy == b[2] - a[2]
                    g == GCD(Abs(dx), Abs(dy))
                IN <<dx \div g, dy \div g>>
